@@ -48,12 +48,27 @@ IMPORTS = ("From PM.theories Require Import Base AsyncClient CorrAsync.\n"
 class Transport:
     def __init__(self):
         self.writes = []
+        self.closed = 0
 
     def write(self, data):
         self.writes.append(bytes(data))
 
     def close(self):
-        pass
+        self.closed += 1
+
+
+class TransportNoClose:
+    """like the real Twisted transports: loseConnection(), no close()"""
+
+    def __init__(self):
+        self.writes = []
+        self.closed = 0
+
+    def write(self, data):
+        self.writes.append(bytes(data))
+
+    def loseConnection(self):
+        self.closed += 1
 
 
 CTORS = {"dict": ["instance", "default", "class", "factory", "tcp-subclass"],
@@ -81,7 +96,7 @@ def build_protocol(variant, ctor):
     raise ValueError(ctor)
 
 
-def run_history(variant, items, ctor="instance"):
+def run_history(variant, items, ctor="instance", tclose=True):
     """items: ("exec", unit) | ("reply", [(j | None, tid_if_unsolicited, unit_override | None, rid), ...]) |
               ("lost",) | ("made",) | ("skip", n)
     returns observation dict with the resolved ops"""
@@ -90,7 +105,7 @@ def run_history(variant, items, ctor="instance"):
     from pymodbus.register_read_message import ReadHoldingRegistersRequest, ReadHoldingRegistersResponse
     proto = build_protocol(variant, ctor)
     builder = ModbusSocketFramer(ClientDecoder()) if variant == "dict" else ModbusRtuFramer(ClientDecoder())
-    tr = Transport()
+    tr = Transport() if tclose else TransportNoClose()
     proto.transport = tr
     alloc = 0
     fired, sent, escaped, ops = [], [], [], []
@@ -161,6 +176,9 @@ def run_history(variant, items, ctor="instance"):
         elif it[0] == "made":
             ops.append("Made")
             guarded(proto.connectionMade)
+        elif it[0] == "close":
+            ops.append("Close")
+            guarded(proto.close)
         elif it[0] == "skip":
             ops.append("Skip %d%%N" % it[1])
             for _ in range(it[1]):
@@ -212,6 +230,8 @@ def region(variant, items):
             conn = True
         elif it[0] == "lost":
             conn, out = False, []
+        elif it[0] == "close":
+            conn = False
         elif it[0] == "reply":
             us = [uover if uover is not None else (items_unit(items, j)) for j, utid, uover, rid in it[1]]
             # the first frame's unit is the only expected unit, unless it is the wildcard 0 / 0xFF
@@ -227,13 +247,13 @@ def items_unit(items, j):
     return 1
 
 
-def mk_case(variant, items, label, ctor="instance"):
-    o = run_history(variant, items, ctor)
-    desc = {"variant": variant, "ctor": ctor, "items": [list(i) if not isinstance(i, str) else i for i in items],
+def mk_case(variant, items, label, ctor="instance", tclose=True):
+    o = run_history(variant, items, ctor, tclose)
+    desc = {"variant": variant, "ctor": ctor, "tclose": tclose, "items": [list(i) if not isinstance(i, str) else i for i in items],
             "resolved_ops": o["ops"], "fired": [list(f) for f in o["fired"]], "sent": o["sent"],
             "escaped": o["escaped"], "region": region(variant, items)}
-    return Case(obs_term(o), desc, kind=label + ("" if ctor == "instance" else "@" + ctor),
-                nontrivial=bool(o["fired"]), key=(variant, ctor, tuple(o["ops"])))
+    return Case(obs_term(o), desc, kind=label + ("" if ctor == "instance" else "@" + ctor) + ("" if tclose else "@noclose"),
+                nontrivial=bool(o["fired"]), key=(variant, ctor, tclose, tuple(o["ops"])))
 
 
 # ----------------------------------------------------------------------------- history generators
@@ -385,6 +405,37 @@ def gen_ctors(r, n):
     return cases
 
 
+def gen_close(r, n):
+    """protocol.close() by the user, on a transport with and without a close() method; requests before
+    connectionMade, after close() and after the loss"""
+    cases = []
+    for v in ("dict", "fifo"):
+        for tclose in (True, False):
+            fixed = [
+                [("exec", 1)],
+                [("exec", 1), ("made",), ("exec", 1), ("lost",)],
+                [("made",), ("exec", 1), ("close",), ("exec", 1), ("lost",), ("exec", 1)],
+                [("made",), ("close",), ("exec", 1), ("exec_e", 1)],
+                [("close",), ("exec", 1), ("made",), ("exec", 1), ("reply", [(1, 0, None, 9)])],
+                [("made",), ("exec_e", 1), ("exec", 1), ("close",), ("lost",)],
+                [("made",), ("exec", 1), ("reply", [(0, 0, None, 3)]), ("close",), ("close",), ("exec_c", 1), ("lost",)],
+            ]
+            for items in fixed:
+                cases.append(mk_case(v, items, "close-%s" % v, tclose=tclose))
+            base = [("made",), ("exec", 1), ("exec", 1), ("reply", [(0, 0, None, 11)]), ("exec", 1)]
+            for i in range(len(base) + 1):
+                cases.append(mk_case(v, base[:i] + [("close",)] + base[i:] + [("exec", 1), ("lost",), ("exec", 1)],
+                                     "close-at-%s" % v, tclose=tclose))
+            for _ in range(n):
+                items = fifo_history(r) if v == "fifo" else random_history(r, "dict")
+                k = r.randrange(len(items) + 1)
+                items = items[:k] + [("close",)] + items[k:]
+                if v == "fifo":
+                    items = [it for it in items if it[0] != "reply"] + [("lost",)]
+                cases.append(mk_case(v, items, "close-random-%s" % v, tclose=tclose))
+    return cases
+
+
 def gen_wrap():
     cases = []
     # no request outstanding across the wrap: fine
@@ -412,7 +463,7 @@ def suites(tier):
     cases = gen_permutations() + gen_loss_everywhere() + gen_wrap() + gen_long()
     n = 500 if tier == "quick" else 8000
     cases += gen_reentrant(r, n // 5)
-    cases += gen_units() + gen_ctors(r, n // 10)
+    cases += gen_units() + gen_ctors(r, n // 10) + gen_close(r, n // 20)
     for _ in range(n):
         cases.append(mk_case("dict", random_history(r, "dict"), "random-dict"))
     for _ in range(n // 3):
@@ -420,6 +471,73 @@ def suites(tier):
     for _ in range(n // 5):
         cases.append(mk_case("dict", random_history(r, "dict", mixed=True), "random-mixed-unit"))
     return [Suite("histories", IMPORTS, "chk_async code", cases, shard=150)]
+
+
+# ----------------------------------------------------------------------------- replies split into chunks
+
+def run_chunked(units, nregs, cuts):
+    """one request per unit outstanding on the real (dict) protocol; the concatenated replies are delivered
+    to dataReceived in the chunks given by the cut offsets.  python-side oracle: every reply is delivered to
+    its own deferred exactly once."""
+    from pymodbus.client.asynchronous.twisted import ModbusClientProtocol
+    from pymodbus.factory import ClientDecoder
+    from pymodbus.transaction import ModbusSocketFramer
+    from pymodbus.register_read_message import ReadHoldingRegistersRequest, ReadHoldingRegistersResponse
+    proto = ModbusClientProtocol()
+    tr = Transport()
+    proto.transport = tr
+    proto.connectionMade()
+    builder = ModbusSocketFramer(ClientDecoder())
+    got, escaped = {}, []
+    stream, frames = b"", []
+    for i, u in enumerate(units):
+        d = proto.execute(ReadHoldingRegistersRequest(address=i, count=nregs, unit=u))
+        tid = int.from_bytes(tr.writes[-1][0:2], "big")
+        d.addCallbacks(lambda rsp, i=i: got.setdefault(i, []).append(("cb", int(rsp.transaction_id), list(rsp.registers))),
+                       lambda f, i=i: got.setdefault(i, []).append(("err", pyexn(f.value))))
+        rsp = ReadHoldingRegistersResponse([100 + i] * nregs)
+        rsp.transaction_id, rsp.unit_id = tid, u
+        pk = builder.buildPacket(rsp)
+        frames.append((len(stream), len(stream) + len(pk), u, tid))
+        stream += pk
+    bounds = [0] + sorted(set(c for c in cuts if 0 < c < len(stream))) + [len(stream)]
+    chunks = [stream[a:b] for a, b in zip(bounds, bounds[1:])]
+    for c in chunks:
+        try:
+            proto.dataReceived(c)
+        except Exception as e:  # noqa: BLE001
+            escaped.append(pyexn(e))
+    lost = [i for i in range(len(units)) if not got.get(i)]
+    wrong = [i for i in range(len(units)) if got.get(i) and got[i] != [("cb", frames[i][3], [100 + i] * nregs)]]
+    # region of the known finding: the unit filter of the call in which a frame completes is taken from byte 6 of
+    # a chunk that is longer than an MBAP header but does not start at a frame boundary (or starts at the
+    # boundary of a frame for another unit = the mixed-unit finding)
+    regs = set()
+    for a, b, u, _tid in frames:
+        k = next(j for j in range(len(chunks)) if bounds[j + 1] >= b)
+        c = chunks[k]
+        flt = c[6] if len(c) > 7 else 0
+        if flt not in (0, 255, u):
+            regs.add("chunk-unit" if bounds[k] not in [f[0] for f in frames] else "mixed-unit")
+    return {"units": list(units), "nregs": nregs, "cuts": list(cuts), "lost": lost, "wrong": wrong,
+            "escaped": escaped, "region": sorted(regs), "chunks": [len(c) for c in chunks]}
+
+
+def extra_checks(tier):
+    r = common.rng("C16.chunks")
+    runs = []
+    for units in ([1], [2], [0], [255], [2, 1], [1, 2], [255, 2], [2, 2, 2]):
+        for nregs in (1, 3):
+            total = len(units) * (9 + 2 * nregs)
+            for cut in range(1, total):
+                runs.append(run_chunked(units, nregs, [cut]))
+            for _ in range(20 if tier == "quick" else 300):
+                runs.append(run_chunked(units, nregs, sorted(r.sample(range(1, total), min(total - 1, r.choice([2, 3, 4]))))))
+    failures = [o for o in runs if o["lost"] or o["wrong"] or o["escaped"]]
+    return {"chunked": {"evaluations": len(runs), "failures": failures, "broken": [],
+                        "keys": [(tuple(o["units"]), o["nregs"], tuple(o["cuts"])) for o in runs if not (o["lost"] or o["wrong"])],
+                        "in_known_region": sum(1 for o in failures if o["region"]),
+                        "samples": failures[:1] + runs[:1]}}
 
 
 # ----------------------------------------------------------------------------- findings / replay
@@ -430,6 +548,8 @@ def classify(suite, desc):
         return "F-C16-tid-wrap"
     if "mixed-unit" in regs:
         return "F-C16-mixed-unit-segment"
+    if "chunk-unit" in regs:
+        return "F-C16-chunked-reply-unit"
     return None
 
 
@@ -439,14 +559,22 @@ def _items(w):
 
 def replay_finding(f):
     from lib import coqrun
-    o = run_history(f["witness"]["variant"], _items(f["witness"]["items"]), f["witness"].get("ctor", "instance"))
+    if f["id"] == "F-C16-chunked-reply-unit":
+        w = f["witness"]
+        o = run_chunked(w["units"], w["nregs"], w["cuts"])
+        return bool(o["lost"])
+    o = run_history(f["witness"]["variant"], _items(f["witness"]["items"]), f["witness"].get("ctor", "instance"), f["witness"].get("tclose", True))
     r = coqrun.eval_cases("C16_finding", IMPORTS, "chk_async code", [obs_term(o)])
     return bool(r["propfail"])
 
 
 def replay_case(suite, desc):
     from lib import coqrun
-    o = run_history(desc["variant"], _items(desc["items"]), desc.get("ctor", "instance"))
+    if suite == "chunked":
+        o = run_chunked(desc["units"], desc["nregs"], desc["cuts"])
+        print(o)
+        return bool(o["lost"] or o["wrong"] or o["escaped"])
+    o = run_history(desc["variant"], _items(desc["items"]), desc.get("ctor", "instance"), desc.get("tclose", True))
     print(o)
     r = coqrun.eval_cases("C16_replay", IMPORTS, "chk_async code", [obs_term(o)])
     print(r)
